@@ -86,8 +86,9 @@ func hC12(prefixIdx, nops, vlen, layout int) {
 
 // quick: case = prefix {1,2} x first writer op (6), hash layout 1
 func H_C12_q() { c := vCase(); hC12(1+c%2, 2, 2, 1) }
+
 // thorough: case = prefix (3) x layout (2) x first writer op (6)
-func H_C12_t() { c := vCase(); hC12div = 6; hC12(c%3, 2, 2, (c/3)%2) }
+func H_C12_t()  { c := vCase(); hC12div = 6; hC12(c%3, 2, 2, (c/3)%2) }
 func H_C12_t3() { c := vCase(); hC12(1+c%2, 3, 2, 1) }
 
 // H_C12_recovered: Backup of a database that was opened through recovery after
